@@ -542,7 +542,16 @@ func TestRandomGraphs(t *testing.T) {
 					dup = true
 				}
 			}
-			switch rapid.IntRange(0, 18).Draw(t, "probe") {
+			switch rapid.IntRange(0, 20).Draw(t, "probe") {
+			case 19, 20: // the same module imported twice by one file, each time for other names: its
+				// body runs once, and the names of BOTH lists are available
+				if !dup {
+					c.Select[0][0] = fnName(m, 1)
+					c.Extra = "导入“" + m + "”之" + fnName(m, 3) + "、" + clsName(m)
+					c.Probe = "（显示：“two”、（" + fnName(m, 1) + "）、{以（" + fnName(m, 3) + "）（报）}、（新建" + clsName(m) + "）之名）\n"
+					c.Expect = "ok:two " + m + "-1 " + m + "-obj " + m + "-obj"
+					labels = append(labels, "probe:one-module-imported-twice-for-other-names")
+				}
 			case 17, 18: // a second spelling of a nested module's path is not a second name of it
 				for _, j := range c.Edges[0] {
 					if strings.Contains(c.Names[j], "-") {
